@@ -85,6 +85,8 @@ def main():
                         r.unlink()
         finally:
             sh("git checkout -- .", cwd="/repo")
+            # the checks regenerate lean/SkfemVerif/Gen/* from the (changed) source: restore them from the clean tree
+            sh("PYTHONPATH=harness:/repo /venv/bin/python -m skv.gen", cwd=VERIF, timeout=1200)
     meta["check_results"] = results
     meta["detected_by"] = [c for c, r in results.items() if isinstance(r, dict) and r.get("rc") == 1]
     meta["ran"] = [f"demo.py without/with the change in {wt}", "full scikit-fem suite with the change (-n 12)",
